@@ -82,6 +82,7 @@ func (c *faultCtl) firedCount(name string) int {
 var errInjected = errors.New("injected fault")
 
 type faultChecker struct {
+	checker.Service
 	inner checker.Service
 	ctl   *faultCtl
 }
@@ -94,6 +95,7 @@ func (f *faultChecker) Check(ctx context.Context, creds *checker.Credentials, ac
 }
 
 type faultUnlocker struct {
+	unlocker.Service
 	inner unlocker.Service
 	ctl   *faultCtl
 }
@@ -155,6 +157,7 @@ func (f *faultRules) OnSignBeaconAttestations(ctx context.Context, m []*rules.Re
 }
 
 type faultRuler struct {
+	ruler.Service
 	inner ruler.Service
 	ctl   *faultCtl
 }
@@ -198,10 +201,10 @@ func newC06Env(run *evid.Run, cfg Cfg, name string) (*c06Env, error) {
 	ctl := &faultCtl{}
 	ctl.set(nil, nil)
 	env, err := NewEnv(run, cfg, name, rig.StackOpts{
-		WrapChecker:  func(c checker.Service) checker.Service { return &faultChecker{inner: c, ctl: ctl} },
-		WrapUnlocker: func(u unlocker.Service) unlocker.Service { return &faultUnlocker{inner: u, ctl: ctl} },
+		WrapChecker:  func(c checker.Service) checker.Service { return &faultChecker{Service: c, inner: c, ctl: ctl} },
+		WrapUnlocker: func(u unlocker.Service) unlocker.Service { return &faultUnlocker{Service: u, inner: u, ctl: ctl} },
 		WrapRules:    func(r rules.Service) rules.Service { return &faultRules{Service: r, ctl: ctl} },
-		WrapRuler:    func(r ruler.Service) ruler.Service { return &faultRuler{inner: r, ctl: ctl} },
+		WrapRuler:    func(r ruler.Service) ruler.Service { return &faultRuler{Service: r, inner: r, ctl: ctl} },
 	})
 	if err != nil {
 		return nil, err
@@ -422,9 +425,10 @@ func c06Applies(f, kind string, n int) bool {
 }
 
 type stubSigner struct {
-	res core.Result
-	sig []byte
-	n   int
+	signer.Service // nil: only here so that the stub keeps compiling if the interface grows
+	res            core.Result
+	sig            []byte
+	n              int
 }
 
 func (s *stubSigner) SignGeneric(context.Context, *checker.Credentials, string, []byte, *rules.SignData) (core.Result, []byte) {
